@@ -30,7 +30,7 @@ func execNetworkSimplex(g *graph.DGraph, params graph.Params) {
 	// todo: if there are flat edges, dot adds auxiliary edges
 	aux := p.auxiliaryGraph(g)
 
-	phase2.NetworkSimplex.Process(
+	phase2.NetworkSimplex.AssignLayers(
 		aux,
 		graph.Params{
 			NetworkSimplexThoroughness:  params.NetworkSimplexThoroughness,
